@@ -10,3 +10,5 @@ for c in "$@"; do
 done
 git -C /repo checkout -- .
 [ -z "$(git -C /repo status --porcelain)" ] || echo "WARNING: /repo still dirty"
+# evidence/ must describe /repo itself: re-run the same checks on the restored tree
+for c in "$@"; do /verif/check $c 2>&1 | tail -1; done
